@@ -3,6 +3,7 @@
 (* behaviour: the closed-form initial state equals what treeHashSetup       *)
 (* computes, and treeHashSetup computes the root.                           *)
 EXTENDS Bds
+Setup == SetupOf(0)
 VARIABLE x
 Init == x = 0
 Next == x' = x
